@@ -4,12 +4,13 @@
 quick/thorough: random histories.  Each history builds a window tree (overlapping siblings, nesting, windows partly
 outside their parent, hidden subtrees, stealing windows, LOWEST / ROOT_PARENT placement), binds key and mouse
 handlers whose behaviour tables claim or decline and (in `mutating` histories) close / unref / hide / restack /
-focus / steal from inside the handler, places the focus, and then sends key events and press / drag / release /
+focus / steal / set_geometry (g<id>@dt@dl@dn@dc: move or resize a window) from inside the handler, places the focus, and then sends key events and press / drag / release /
 wheel sequences at cells on and around window corners, interleaved with top-level tree operations and flushes.
 A DRAG is never sent before the first PRESS of a history (the press memory is uninitialised before: assumption).
 Handlers may be bound one-shot (`ko` / `mo`) and entries may unbind their own binding (`!`); mouse gestures also arrive
 as X10-encoded bytes (`x10`: wheel turns before and inside drags, second buttons, the button-less release, bare motion,
-reports libtermkey cannot classify).  Templates: stack, drag, chain, oneshot (handlers that leave the list they are run
+reports libtermkey cannot classify).  Templates: move (a window that moves itself, its parent or a neighbour from inside
+its mouse handler and lets the event through, or claims DRAG while another window is the drag source), stack, drag, chain, oneshot (handlers that leave the list they are run
 from and hand the focus over from inside the dispatch), x10 (byte gestures over a small tree).
 
 exhaustive: three fixed trees x every cell of the terminal x {press, wheel, press-drag-release to a second cell} x
@@ -35,8 +36,25 @@ def emit(s):
 def count(d, k, n=1):
     d[k] = d.get(k, 0) + n
 
-ACTS = "cukhsrRlLftT"
-MUT_WEIGHTS = {"c": 10, "u": 10, "h": 5, "s": 3, "k": 2, "r": 2, "R": 2, "l": 2, "L": 2, "f": 5, "t": 2, "T": 2}
+ACTS = "cukhsrRlLftTg"
+MUT_WEIGHTS = {"c": 10, "u": 10, "h": 5, "s": 3, "k": 2, "r": 2, "R": 2, "l": 2, "L": 2, "f": 5, "t": 2, "T": 2, "g": 6}
+
+def geom_delta():
+    """(dtop, dleft, dlines, dcols) of a set_geometry from inside a handler: mostly a move, sometimes a resize."""
+    x = rng.random()
+    if x < 0.7:
+        d = (rng.choice([-2, -1, 0, 1, 1, 2, 3]), rng.choice([-2, -1, 0, 1, 2, 2, 3]), 0, 0)
+    elif x < 0.85:
+        d = (0, 0, rng.choice([-1, 1, 2]), rng.choice([-1, 1, 2]))
+    else:
+        d = (rng.choice([-1, 0, 1]), rng.choice([-1, 0, 1]), rng.choice([-1, 0, 1]), rng.choice([-1, 0, 1]))
+    return d
+
+def actstr(k, w, d=None):
+    if k == "g":
+        if d is None: d = geom_delta()
+        return "g%d@%d@%d@%d@%d" % ((w,) + tuple(d))
+    return "%s%d" % (k, w)
 
 class Hist:
     """Generator-side picture of a history (approximate: handler side effects are not simulated)."""
@@ -117,7 +135,7 @@ def rand_action(h, self_id):
     if k in "cu" and w == 0 and rng.random() < 0.9:
         w = rng.choice(list(h.par.keys()))
     count(actmix, k)
-    return "%s%d" % (k, w)
+    return actstr(k, w)
 
 def rand_entry(h, self_id, mutating, claim_p, unbind_p=0.0):
     ret = 1 if rng.random() < claim_p else 0
@@ -198,10 +216,10 @@ def rand_cell(h):
     return (rng.choice([-1, h.L, h.L + 3]), rng.choice([-1, h.C, 0]))
 
 def top_action(h):
-    k = rng.choices(list(MUT_WEIGHTS.keys()), weights=[6, 6, 8, 6, 2, 4, 4, 4, 4, 10, 4, 3])[0]
+    k = rng.choices(list(MUT_WEIGHTS.keys()), weights=[6, 6, 8, 6, 2, 4, 4, 4, 4, 10, 4, 3, 3])[0]
     w = target(h, None)
     count(actmix, "top:" + k)
-    emit("act %s%d" % (k, w))
+    emit("act " + actstr(k, w))
     if k == "c" or k == "u":
         pass
 
@@ -341,7 +359,7 @@ def stack_history():
                 a = rng.choice("ccuuhhsstT") if rng.random() < 0.8 else rng.choice(ACTS)
                 tgt = rng.choice([rng.choice(ids), parent, actor, rng.choice(stack)])
                 count(actmix, a)
-                ent = "%d,%s%d" % (1 if rng.random() < 0.2 else 0, a, tgt)
+                ent = "%d,%s" % (1 if rng.random() < 0.2 else 0, actstr(a, tgt))
                 if rng.random() < 0.3:
                     a2 = rng.choice("cuhf"); count(actmix, a2)
                     ent += ",%s%d" % (a2, rng.choice(ids))
@@ -541,6 +559,72 @@ def x10_history():
         elif x < 0.93: mouse_seq(h)
         else: top_action(h)
 
+def move_history():
+    """Windows that move (or resize) themselves, an ancestor or a neighbour from inside a mouse handler: a marker that
+    follows the pointer and lets the event through to the window behind it and to its parent; a window that is dragged
+    along (claims DRAG and moves) while another window is the drag source (DRAG_OUTSIDE); nested variants, in which the
+    window moved is the parent or grandparent of the window whose handler runs.  Every other window must still be given
+    the position relative to itself."""
+    L, C = rng.randint(8, 14), rng.randint(20, 40)
+    emit("new %d %d" % (L, C))
+    count(feat, "template:move")
+    ids = [0]
+    parent = 0
+    ot, ol = 0, 0
+    if rng.random() < 0.6:
+        ot, ol = rng.randint(0, 2), rng.randint(0, 4)
+        emit("win 0 %d %d %d %d 0" % (ot, ol, L - ot - 1, C - ol - 2)); parent = 1; ids.append(1)
+    # back: a large window; marker: a small one in front of it; both children of `parent`
+    bt, bl = rng.randint(0, 2), rng.randint(0, 3)
+    emit("win %d %d %d %d %d 0" % (parent, bt, bl, 5, 12)); back = len(ids); ids.append(back)
+    mt, ml = bt + rng.randint(0, 2), bl + rng.randint(0, 4)
+    emit("win %d %d %d %d %d %d" % (parent, mt, ml, 3, 4, 8 if rng.random() < 0.1 else 0)); marker = len(ids); ids.append(marker)
+    inner = None
+    if rng.random() < 0.5:
+        emit("win %d 0 0 2 3 0" % marker); inner = len(ids); ids.append(inner)
+    # a far window (drag source / drop target)
+    emit("win 0 %d %d 2 4 0" % (L - 2, C - 5)); far = len(ids); ids.append(far)
+    actor = inner if inner is not None and rng.random() < 0.6 else marker
+    tgt = rng.choice([marker, marker, actor, actor, parent if parent else marker, back])
+    claim_drag = rng.random() < 0.4
+    for w in ids:
+        if w == actor:
+            es = []
+            for i in range(rng.choice([1, 2, 3])):
+                count(actmix, "g")
+                e = "%d,%s" % (1 if claim_drag and rng.random() < 0.7 else 0, actstr("g", tgt))
+                if rng.random() < 0.15:
+                    a2 = rng.choice("hg"); count(actmix, a2)
+                    e += "," + actstr(a2, rng.choice(ids[1:]))
+                es.append(e)
+            if rng.random() < 0.3: es.append("0")
+            emit("bind %d m %s" % (w, " ".join(es)))
+            if rng.random() < 0.4: emit("bind %d m %d" % (w, 1 if rng.random() < 0.3 else 0))
+        elif rng.random() < 0.92:
+            emit("bind %d m %s" % (w, " ".join("1" if rng.random() < (0.5 if w in (back, far) else 0.1) else "0" for _ in range(rng.choice([1, 2, 3])))))
+        if rng.random() < 0.3: emit("bind %d k 0" % w)
+    if rng.random() < 0.3: emit("flush")
+    # the cell of the marker, absolute
+    cl, cc = ot + mt + rng.randint(0, 1), ol + ml + rng.randint(0, 2)
+    for _ in range(rng.randint(1, 3)):
+        x = rng.random()
+        if x < 0.35:
+            emit("mouse %d 1 %d %d 0" % (rng.choice([1, 4]), cl, cc))
+        elif x < 0.5:
+            emit("x10 %d %d %d" % (rng.choice([0, 64]), cl, cc))
+        elif x < 0.8:
+            # press on the far window (or on the back one), drag over the marker, release
+            (pl, pc) = (L - 2, C - 4) if rng.random() < 0.6 else (ot + bt + 4, ol + bl + 11)
+            emit("mouse 1 1 %d %d 0" % (pl, pc))
+            for _ in range(rng.randint(1, 3)):
+                emit("mouse 2 1 %d %d 0" % (cl, cc))
+                if rng.random() < 0.5: cl, cc = cl + rng.choice([0, 1]), cc + rng.choice([0, 1, 2])
+            emit("mouse 3 1 %d %d 0" % (cl, cc))
+        else:
+            emit("mouse 1 1 %d %d 0" % (cl, cc)); emit("mouse 2 1 %d %d 0" % (cl + 1, cc + 1)); emit("mouse 3 1 %d %d 0" % (cl + 1, cc + 1))
+        if rng.random() < 0.2: emit("key 1 0")
+        if rng.random() < 0.2: emit("flush")
+
 # ----------------------------------------------------------------------------------------------- exhaustive
 def exhaustive():
     nh = 0
@@ -588,7 +672,7 @@ def exhaustive():
                         for (p, r, f) in tree:
                             emit("win %d %d %d %d %d %d" % ((p,) + r + (f,)))
                         for w in range(nw):
-                            if w == hw: emit("bind %d %s %d,%s%d 0" % (w, kind, claim, act, tw))
+                            if w == hw: emit("bind %d %s %d,%s 0" % (w, kind, claim, actstr(act, tw, (1, 1, 0, 0))))
                             else: emit("bind %d %s 0" % (w, kind))
                         if kind == "k":
                             emit("key 2 0"); emit("key 2 0"); emit("flush"); emit("key 1 0")
@@ -607,8 +691,8 @@ def exhaustive():
                             emit("win %d %d %d %d %d %d" % ((p,) + r + (f,)))
                         for w in range(nw):
                             if w == hw:
-                                if how == "o": emit("bind %d %so 0,%s%d" % (w, kind, act, tw))
-                                else: emit("bind %d %s 0,!,%s%d" % (w, kind, act, tw))
+                                if how == "o": emit("bind %d %so 0,%s" % (w, kind, actstr(act, tw, (1, -1, 0, 0))))
+                                else: emit("bind %d %s 0,!,%s" % (w, kind, actstr(act, tw, (-1, 1, 0, 1))))
                                 emit("bind %d %s 0" % (w, kind))
                             else: emit("bind %d %s 0" % (w, kind))
                         if kind == "k":
@@ -642,7 +726,8 @@ else:
     H = 1500 if a.tier == "quick" else 10000
     for _ in range(H):
         x = rng.random()
-        if x < 0.52: random_history()
+        if x < 0.46: random_history()
+        elif x < 0.52: move_history()
         elif x < 0.64: stack_history()
         elif x < 0.73: drag_history()
         elif x < 0.82: chain_history()
